@@ -18,8 +18,9 @@ from multiprocessing import get_context
 from .. import core, tlc, validate
 from ..tlaparse import to_json
 
-CONTENTS = {"c1": b"content-one", "c2": b"content-two", "c3": b"a longer third content"}
-PATHNAMES = {"p": "p.bin", "q": "sub/q é.txt", "r": "r"}
+# (c3 is text with CRLF line ends: its legacy md5-dos2unix digest is not its md5)
+CONTENTS = {"c1": b"content-one", "c2": b"content-two", "c3": b"a longer third content\r\nin two lines\r\n"}
+PATHNAMES = {"p": "p.bin", "q": "sub/q é.txt", "r": "r", "o": "<object in a store>"}
 APIS = ["hash_file", "get_hashes", "build", "index_md5", "hash_file_info"]
 
 
@@ -88,14 +89,34 @@ class Files:
         self.digest = {alg: {hashlib.new(alg, b).hexdigest(): c for c, b in CONTENTS.items()} for alg in ("md5", "sha256")}
         self.old_index = None
         self.pads = None
+        self.objpath: dict[str, str] = {}
 
     LINKS = ("r",)   # this workspace path is a symbolic link to a file kept elsewhere: the token is the TARGET's
 
     def path(self, p):
+        if p in self.objpath:
+            return self.objpath[p]
         return os.path.join(self.ws, *PATHNAMES[p].split("/"))
+
+    def store_create(self, p, c, salg):
+        """A local store of algorithm `salg` sharing the state database takes the content in: the object's path is p."""
+        from dvc_data.hashfile.db.local import LocalHashFileDB
+        from dvc_data.hashfile.hash import hash_file
+
+        odb = LocalHashFileDB(self.fs, os.path.join(self.root, "store-" + salg), state=self.state, hash_name=salg)
+        tmp = os.path.join(self.root, "incoming")
+        with open(tmp, "wb") as fh:
+            fh.write(CONTENTS[c])
+        _m, hi = hash_file(tmp, self.fs, salg)
+        odb.add(tmp, self.fs, hi.value, hardlink=False)
+        os.unlink(tmp)
+        self.objpath[p] = odb.oid_to_path(hi.value)
+        self.note(p)
 
     def real(self, p):
         """Where the bytes live (the link's target for a linked path)."""
+        if p in self.objpath:
+            return self.objpath[p]
         if p in self.LINKS:
             return os.path.join(self.root, "targets", p)
         return self.path(p)
@@ -125,6 +146,10 @@ class Files:
         self.note(p)
 
     def delete(self, p):
+        if p in self.objpath:
+            os.chmod(self.objpath[p], 0o644)
+            os.unlink(self.objpath.pop(p))
+            return
         os.unlink(self.path(p))
         if p in self.LINKS:
             os.unlink(self.real(p))
@@ -132,6 +157,8 @@ class Files:
     def mutate(self, p, c, new_ino, new_mt):
         """Returns the (ino, mt) changes that really happened (A13: the token must be new for this path)."""
         fp = self.real(p)      # (a linked path is changed through its target, the link itself stays as it is)
+        if p in self.objpath:
+            os.chmod(fp, 0o644)
         before = os.stat(fp)
         if new_ino:
             tmp = fp + ".new"
@@ -329,6 +356,8 @@ def run_trace(case):
             ev = {"ans": {}, "pads_ok": True}
             if op == "Create":
                 f.create(a["p"], a["c"])
+            elif op == "StoreCreate":
+                f.store_create(a["p"], a["c"], a["salg"])
             elif op == "Delete":
                 f.delete(a["p"])
             elif op == "Mutate":
@@ -336,6 +365,8 @@ def run_trace(case):
                 a["ino"], a["mt"] = bool(ino), bool(mt)
             elif op == "Query":
                 api = a["api"] if a["api"] != "any" else APIS[(case["id"] + k) % len(APIS)]
+                if set(a["P"]) & set(f.objpath) and api in ("build", "index_md5"):
+                    api = "hash_file"      # an object in a store is not part of the workspace directory
                 a["api"] = api
                 ev["ans"], ev["pads_ok"] = f.query(sorted(a["P"]), a["alg"], api, with_pads=case.get("pads") and api == "get_hashes")
             elif op == "QueryRace":
@@ -408,6 +439,14 @@ def directed_cases():
             q = {"op": "Query", "P": ["p"], "alg": "md5", "api": api}
             cases.append({"id": 200000 + n, "ops": [{"op": "Create", "p": "p", "c": "c1"}, {"op": "Inject", "p": "p", "kind": kind}, q, q]})
             n += 1
+    # an object taken in by a store of another algorithm (sharing the state database), then looked up under md5
+    for salg in ("md5-dos2unix", "sha256", "md5"):
+        for c in ("c3", "c1"):
+            for api in ("hash_file", "get_hashes", "hash_file_info"):
+                q = {"op": "Query", "P": ["o"], "alg": "md5", "api": api}
+                cases.append({"id": 250000 + n, "ops": [{"op": "StoreCreate", "p": "o", "c": c, "salg": salg}, q, q,
+                                                       {"op": "Query", "P": ["o"], "alg": "sha256", "api": "hash_file"}, q]})
+                n += 1
     # a writer gets in during a query: before the bytes are read / after the last read; every later lookup must miss
     for api in APIS:
         for when in ("before-read", "after-read"):
